@@ -38,13 +38,32 @@ def run_model(ops):
     return p.stdout.splitlines()
 
 
-def rt_oracle(op, out):
-    """property oracle on one implementation answer: a round trip must return its input"""
+NONNUMERIC = {0, 1, 2, 3, 4, 5, 16, 17, 18}   # unknown, cell, struct, logical, char, void, function, opaque, object
+SCALAR_TYPES = {"bool", "char", "uchar", "int", "size_t", "double"}
+
+
+def direct_oracle(op, out, known_ops):
+    """The property's own observation on one implementation answer (independent of the model):
+    a round trip returns its input; a non-scalar where a scalar is required and a non-numeric array where a
+    vector / point / matrix is required are errors.  Returns a description of the failure or None."""
+    if op in known_ops:
+        return None
     f = op.split("\t")
-    if f[0] != "rt":
-        return True
-    # `rt <type> <value...>` answers `ok <same value...>`; errors are violations unless guarded (NUL, huge dims)
-    return out.startswith("ok")
+    if f[0] == "rt":
+        if f[1] == "string" and "00" in [f[2][i:i + 2] for i in range(0, len(f[2]), 2)]:
+            return None      # embedded NUL: recorded finding C18-string-embedded-nul-truncated
+        want = " => ok " + " ".join(f[2:])
+        if not out.endswith(want):
+            return "a wrap -> unwrap round trip does not return the original value"
+    elif f[0] == "unwrap" and len(f) >= 5:
+        ty, cls, m, n = f[1], int(f[2]), int(f[3]), int(f[4])
+        if max(m, n) >= 2**31:
+            return None      # recorded finding C18-dimensions-through-int
+        if ty in SCALAR_TYPES and m * n != 1 and not out.startswith("err"):
+            return "a non-scalar array was accepted where a scalar is required"
+        if ty in ("vector", "point2", "point3", "matrix") and cls in NONNUMERIC and not out.startswith("err"):
+            return "a non-numeric array was accepted where a vector or matrix is required"
+    return None
 
 
 def main(ctx):
@@ -73,9 +92,13 @@ def main(ctx):
                     ctx.count("%s.%s" % (k, k2), v2)
         if rc != 0:
             ctx.disagree("implementation driver crashed (exit %d)" % rc, stderr=err, ops_run=len(impl))
+        known_ops = {e["witness"]["op"] for e in ctx.known if e.get("kind") != "fixed"}
         for i, op in enumerate(ops):
             ctx.case(op, sample=dict(op=op, impl=impl[i] if i < len(impl) else None))
             a = impl[i] if i < len(impl) else "<missing>"
+            bad = direct_oracle(op, a, known_ops) if i < len(impl) else None
+            if bad and len(ctx.spec_failures) < 5:
+                ctx.spec_fail(bad, op=op, impl=a)
             b = model[i] if i < len(model) else "<missing>"
             if a != b:
                 if len(ctx.disagreements) < 20:
